@@ -311,6 +311,8 @@ def c02(directed, q, pres, t, all_nodes, attrs, nbunch=None, ids=None):
         if c not in all_nodes:
             # unknown node: answers are left open except has_node
             chk("hasnode", e["hasnode"], 0)
+            if "hasnode_unhashable" in e:
+                chk("hasnode_unhashable", e["hasnode_unhashable"], 0)
             continue
         und = sorted(set(succ[c]) | set(pred[c]))
         for name in ("nbrs", "nbrs_iter", "f_nbrs"):
@@ -320,6 +322,9 @@ def c02(directed, q, pres, t, all_nodes, attrs, nbunch=None, ids=None):
                 chk(name + "@%d" % c, e[name], succ[c])
             for name in ("pred", "pred_iter"):
                 chk(name + "@%d" % c, e[name], pred[c])
+            if "indeg1" in e:
+                chk("indeg1@%d" % c, e["indeg1"], len(pred[c]))
+                chk("outdeg1@%d" % c, e["outdeg1"], len(succ[c]))
             chk("allnbrs@%d" % c, e["allnbrs"], sorted(pred[c] + succ[c]))
         else:
             chk("allnbrs@%d" % c, e["allnbrs"], succ[c])
